@@ -5,6 +5,7 @@
 #include <etl/_config/all.hpp>
 
 #include <etl/_concepts/integral.hpp>
+#include <etl/_limits/numeric_limits.hpp>
 #include <etl/_type_traits/is_constant_evaluated.hpp>
 #include <etl/_type_traits/is_same.hpp>
 
@@ -14,11 +15,23 @@ namespace detail {
 template <typename T>
 [[nodiscard]] constexpr auto rint_fallback(T arg) noexcept -> T
 {
-    if constexpr (sizeof(T) <= sizeof(long)) {
-        return static_cast<T>(static_cast<long>(arg));
-    } else {
-        return static_cast<T>(static_cast<long long>(arg));
+    // round to nearest, ties to even (the default rounding mode), sign of the argument kept
+    constexpr auto big = T(1) / etl::numeric_limits<T>::epsilon();
+    if (not(arg > -big and arg < big)) {
+        return arg; // NaN, infinity, or already integral
     }
+    auto const whole = static_cast<long long>(arg);
+    auto const frac  = arg - static_cast<T>(whole);
+    auto result      = static_cast<T>(whole);
+    if (frac > T(0.5) or (frac == T(0.5) and whole % 2 != 0)) {
+        result = static_cast<T>(whole + 1);
+    } else if (frac < T(-0.5) or (frac == T(-0.5) and whole % 2 != 0)) {
+        result = static_cast<T>(whole - 1);
+    }
+    if (result == T(0) and arg < T(0)) {
+        return -T(0);
+    }
+    return (result == T(0) and arg == T(0)) ? arg : result;
 }
 
 template <typename T>
